@@ -1,0 +1,94 @@
+// Copyright © 2022-2026 Obol Labs Inc. Licensed under the terms of a Business Source License 1.1
+
+//go:build verif
+
+package qbft
+
+import (
+	"context"
+	"maps"
+
+	k1 "github.com/decred/dcrd/dcrec/secp256k1/v4"
+	"google.golang.org/protobuf/proto"
+	"google.golang.org/protobuf/types/known/anypb"
+
+	"github.com/obolnetwork/charon/core"
+	"github.com/obolnetwork/charon/core/consensus/instance"
+	"github.com/obolnetwork/charon/core/consensus/timer"
+	pbv1 "github.com/obolnetwork/charon/core/corepb/v1"
+	"github.com/obolnetwork/charon/core/qbft"
+)
+
+// Verification hooks (build tag verif) for the per-instance transport of transport.go. They add no
+// behaviour and are not compiled into normal builds.
+
+// broadcasterFuncVerif adapts a function to the broadcaster interface.
+type broadcasterFuncVerif func(ctx context.Context, msg *pbv1.QBFTConsensusMsg) error
+
+func (f broadcasterFuncVerif) Broadcast(ctx context.Context, msg *pbv1.QBFTConsensusMsg) error {
+	return f(ctx, msg)
+}
+
+// TransportVerif wraps the unexported transport of one consensus instance.
+type TransportVerif struct {
+	t *transport
+}
+
+// NewTransportVerif builds a transport exactly as runInstance does (newTransport with an unbuffered
+// inner receive buffer and a fresh sniffer); the broadcaster is the given function instead of the
+// consensus component.
+func NewTransportVerif(bcast func(ctx context.Context, msg *pbv1.QBFTConsensusMsg) error, privkey *k1.PrivateKey,
+	valueCh <-chan instance.ValueWithHash, nodes, peerIdx int64,
+) *TransportVerif {
+	return &TransportVerif{t: newTransport(broadcasterFuncVerif(bcast), privkey, valueCh,
+		make(chan qbft.Msg[core.Duty, [32]byte, proto.Message]), newSniffer(nodes, peerIdx))}
+}
+
+// Broadcast exposes transport.Broadcast.
+func (v *TransportVerif) Broadcast(ctx context.Context, typ qbft.MsgType, duty core.Duty,
+	peerIdx int64, round int64, valueHash [32]byte, pr int64, pvHash [32]byte,
+	justification []qbft.Msg[core.Duty, [32]byte, proto.Message],
+) error {
+	return v.t.Broadcast(ctx, typ, duty, peerIdx, round, valueHash, pr, pvHash, justification)
+}
+
+// ProcessReceives exposes transport.ProcessReceives (blocks until the context is done).
+func (v *TransportVerif) ProcessReceives(ctx context.Context, outerBuffer chan Msg) {
+	v.t.ProcessReceives(ctx, outerBuffer)
+}
+
+// RecvBuffer exposes transport.RecvBuffer (the inner buffer qbft.Run receives from).
+func (v *TransportVerif) RecvBuffer() chan qbft.Msg[core.Duty, [32]byte, proto.Message] {
+	return v.t.RecvBuffer()
+}
+
+// SnifferInstance exposes transport.SnifferInstance.
+func (v *TransportVerif) SnifferInstance() *pbv1.SniffedConsensusInstance {
+	return v.t.SnifferInstance()
+}
+
+// ValuesVerif returns a copy of the value cache (same *anypb.Any pointers), read under valueMu.
+func (v *TransportVerif) ValuesVerif() map[[32]byte]*anypb.Any {
+	v.t.valueMu.Lock()
+	defer v.t.valueMu.Unlock()
+
+	return maps.Clone(v.t.values)
+}
+
+// DecideVerif calls the Decide callback of newDefinition (built as runInstance builds it) with the
+// given decided hash and commit quorum; subs receive what the callback hands to the subscribers.
+func DecideVerif(ctx context.Context, nodes int, roundTimer timer.RoundTimer, duty core.Duty, valueHash [32]byte,
+	round int64, qcommit []qbft.Msg[core.Duty, [32]byte, proto.Message],
+	subs []func(ctx context.Context, duty core.Duty, value proto.Message) error, decideCallback func(round int64),
+) {
+	def := newDefinition(nodes, func() []subscriber {
+		var resp []subscriber
+		for _, s := range subs {
+			resp = append(resp, subscriber(s))
+		}
+
+		return resp
+	}, roundTimer, decideCallback, false)
+
+	def.Decide(ctx, duty, valueHash, round, qcommit)
+}
